@@ -51,7 +51,11 @@ func Main() {
 	os.MkdirAll(scratch, 0o755)
 	code := 3
 	func() {
-		defer os.RemoveAll(scratch)
+		if os.Getenv("VERIF_KEEP") == "" {
+			defer os.RemoveAll(scratch)
+		} else {
+			fmt.Fprintln(os.Stderr, "keeping scratch", scratch)
+		}
 		if tier == "--replay" {
 			code = replayMain(p, args[2], scratch)
 			return
@@ -71,6 +75,9 @@ func Main() {
 				d.Inconclusive("setup: " + err.Error())
 			} else {
 				d.RunCases(p.NumCases())
+				if pr, ok := p.(PostRunner); ok {
+					pr.PostRun(env, d)
+				}
 			}
 		}
 		code = d.Finish()
@@ -125,6 +132,14 @@ func replayMain(p Prop, file, scratch string) int {
 		return 3
 	}
 	viol, _, skipped := RunOne(p, rp.Case)
+	if pr, ok := p.(PostRunner); ok && len(viol) == 0 {
+		d := NewDriver(p, env)
+		pr.PostRun(env, d)
+		viol = append(viol, d.Viol...)
+		for _, s := range d.Inconcl {
+			fmt.Println("inconclusive:", s)
+		}
+	}
 	if skipped != "" {
 		fmt.Println("case skipped:", skipped)
 	}
